@@ -24,13 +24,13 @@ ASSUMPTIONS = [
     "strings whose exponent literal has two or more digits are excluded from the random streams (x**11 is valid and takes 2^11.. steps)",
 ]
 RULE = (
-    "quick: all strings of length <=3 over the 20-symbol alphabet a b 1 0 + - * : / ^ ( ) [ ] ~ | ` { } space (8420 strings) "
+    "quick: all strings of length <=3 over the 21-symbol alphabet a b 1 0 + - * : / ^ ( ) [ ] ~ | ` { } space . (9724 strings) "
     "+ random strings over an extended alphabet incl. quotes, %, dots, commas, non-ASCII letters/digits/spaces (length<=12) + mutated "
-    "grammar-derived formulas, each with a random feature-flag subset and intercept setting; thorough: length<=4 exhaustively (168420) and 10x the random streams. "
+    "grammar-derived formulas, each with a random feature-flag subset and intercept setting; thorough: length<=4 exhaustively (204205); plus 'reconfig' cases: a parser that was used under wider feature flags and then narrowed with set_feature_flags must behave like a fresh parser with the narrow flags; and 10x the random streams. "
     "non-trivial = contains an operator or bracket character; distinct by canonical JSON"
 )
 
-SHORT = "ab10+-*:/^()[]~|`{} "
+SHORT = "ab10+-*:/^()[]~|`{} ."
 EXT = SHORT + "'\"%.,_x\\é١ \t\n2$!<>=&@#"
 
 
@@ -69,6 +69,21 @@ def cases(rng, tier):
         if rng.random() < 0.3:  # multistage brackets around a part
             s = "[" + s + "]" if rng.random() < 0.5 else s.replace("~", "~ [", 1) + "]"
         yield dict(kind="mutated", s=s, cfg=rng.choice(ALL_CFG), avail=rng.choice([None, ["a", "b", "x"]]))
+    # exponent literals of `**` / `^` (the right operand must be a positive integer literal)
+    for base in ("a", "(a+b)", "a:b"):
+        for op in ("**", "^", " ** "):
+            for ex in ("0", "00", "000", "01", "1", "2", "02", "1.", "1.0", ".5", "..", "-1", "+2", "(1)", "(00)", "(2)", "1e2",
+                       "0x1", "1_0", "b", "'2'", "2:3", "(2+3)", "(a-a)", "True", "١", "2 2", ""):
+                yield dict(kind="exponent", s=f"{base}{op}{ex}", cfg=rng.choice(ALL_CFG), avail=None)
+    for _ in range(nrand // 8):
+        # narrow the feature flags of a parser that has already built its operator table
+        cfg = dict(rng.choice(ALL_CFG))
+        wide = {k: True for k in ("twosided", "multipart", "multistage") if not cfg[k] and rng.random() < 0.8}
+        s = rng.choice(["y ~ x", "x | z", "y ~ x | z", "y ~ [x ~ z]", "a | b ~ c", "[a ~ b] | c", "~ a", "a + b"])
+        if rng.random() < 0.4:
+            s = c01.mutate(rng, s)
+        yield dict(kind="reconfig", s=s, cfg=cfg, wide=wide, via=rng.choice(["parser", "resolver"]),
+                   warmup=rng.sample(["a + b", "y ~ x | z", "y ~ [x ~ z]", "("], rng.randint(0, 2)), avail=None)
     for _ in range(nrand // 5):
         st = gen_stage(rng, 2)
         s = rng.choice(["{0}", "y ~ {0}", "{0} + x", "{0} ~ z", "{0} | w", "y ~ x + {0} : {1}", "{0} ** 2"]).format(st, gen_stage(rng, 1))
@@ -96,11 +111,33 @@ def describe(c):
     return c["kind"]
 
 
+def impl_reconfig(c):
+    """a parser used under `wide` flags, then narrowed to c['cfg'] with set_feature_flags (history of calls)"""
+    wide = dict(c["cfg"], **c["wide"])
+    p = pc.make_parser(wide)
+    try:
+        for warm in c["warmup"]:
+            try:
+                p.get_terms(warm)
+            except Exception:
+                pass
+        flags = {k for k in ("twosided", "multipart", "multistage") if c["cfg"][k]}
+        if c["via"] == "parser":
+            p.set_feature_flags(flags)
+        else:
+            p.operator_resolver.set_feature_flags(flags)
+        return {"terms": pc.canon_val(p.get_terms(c["s"]))}
+    except Exception as e:
+        return {"error": pc.exc_class(e)}
+
+
 def nontrivial(c):
     return any(ch in c["s"] for ch in "+-*:/^~|()[]{}`%'\"")
 
 
 def impl(c):
+    if c["kind"] == "reconfig":
+        return impl_reconfig(c)
     return pc.impl_terms(c["s"], c["cfg"], c.get("avail"))
 
 
